@@ -9,6 +9,7 @@ import Vata.Proofs.SimModel
 import Vata.Proofs.InclDown
 import Vata.Proofs.InclDownInv
 import Vata.Proofs.InclDownTotal
+import Vata.Proofs.InclUpSim
 import Vata.Properties.Dispatch
 /-!
 # C07 – Inclusion on BDD-encoded (semi-symbolic) tree automata is exact
@@ -40,6 +41,9 @@ import Vata.Properties.Dispatch
     `OptDownwardInclusionFunctor` as the explicit encoding, so the models are those of C01 (`Vata/InclDown.lean`):
     `checkInclDownRec` (`DOWN_REC_NOSIM`), `inclDownOpt` on the sanitised operands (`DOWN_REC_OPT_NOSIM`, the same function by
     definition), `inclDownSim A B R` (`DOWN_REC_SIM`, `DOWN_REC_OPT_SIM`: the caller's relation, validated by the model);
+  - the bottom-up selection "upward with simulation" (`ANTICHAINS_UP_SIM`) calls the same `CheckUpwardTreeInclusion`, which
+    does not use its relation parameter: the models `inclUpBddSim` / `checkInclUpBddSim` (`Vata/InclUpSim.lean`) are
+    `inclUpBdd` on the operands as passed / as prepared by the command line;
   - the bottom-up selection "downward with simulation" (`BDDBUTreeAutCore::CheckInclusion`, case `ANTICHAINS_DOWN_REC_SIM`)
     sanitises both operands, computes the downward simulation on their disjoint union itself, converts to top-down form
     and calls the top-down `DOWN_REC_SIM`: the model is `inclDownSim A' B' (downSimRef (unionDisjoint A' B'))` on
@@ -140,6 +144,35 @@ theorem C07_old_code_partial (A B : TA) (har : ∀ ρ, ρ ∈ A.rules → ρ.kid
 example : (∀ ρ, ρ ∈ InclUpBddEx.exEven.rules → ρ.kids.length ≤ 1) ∧
     inclUpBddOld InclUpBddEx.exEven InclUpBddEx.exAll 10 = some true ∧
     ¬ ∀ ρ, ρ ∈ InclUpBddEx.cexA.rules → ρ.kids.length ≤ 1 := ⟨by decide, by decide, by decide⟩
+
+/-! ### bottom-up encoding, upward "with simulation": the relation is not used -/
+
+/-- the bottom-up selection `ANTICHAINS_UP_SIM` calls `CheckUpwardTreeInclusion(smaller, bigger, params.GetSimulation())`,
+whose third parameter is unnamed and unused (`const Rel& /* preorder */`, `src/tree_incl_up.hh`): the models `inclUpBddSim`
+(the library call: the caller's operands, any relation) and `checkInclUpBddSim` (the command line: operands prepared by
+`sanitize`, the upward simulation of their union computed and then ignored) run the exploration of `UP_NOSIM`.  The result
+does not depend on the relation, and every verdict is exact -/
+theorem C07_bu_upward_sim_exact (A B : TA) (R R' : Rel) (fuel : Nat) (b : Bool) (c : Cert) :
+    inclUpBddSim A B R fuel = inclUpBddSim A B R' fuel ∧
+    (inclUpBddSim A B R fuel = some (b, c) → (b = true ↔ Incl A B)) ∧
+    (checkInclUpBddSim A B fuel = some (b, c) → (b = true ↔ Incl A B)) :=
+  ⟨rfl, fun h => inclUpBddSim_iff h, fun h => checkInclUpBddSim_iff h⟩
+
+example : (inclUpBddSim InclUpBddEx.cexA InclUpBddEx.cexB [(1, 9)] 10).map (·.1) = some false ∧
+    (inclUpBddSim InclUpBddEx.cexB InclUpBddEx.cexA [] 10).map (·.1) = some true ∧
+    (checkInclUpBddSim InclUpBddEx.cexA InclUpBddEx.cexB 10).map (·.1) = some false := ⟨rfl, rfl, rfl⟩
+
+/-- what pruning by an upward simulation WOULD rest on (used by the explicit encoding, C01): a set of pairs closed under
+the post-image up to a reflexive and transitive upward simulation of the disjoint union, with first components in `A` and
+no bad pair, proves the inclusion -/
+theorem C07_upward_sim_certificates (A B : TA) (S : Nat → Nat → Prop) (hS : IsUpSim (unionDisjoint A B) S)
+    (hrefl : ∀ q, S q q) (htr : ∀ a b c, S a b → S b c → S a c) (hdis : ∀ q, q ∈ A.states → q ∉ B.states)
+    (X : List (Nat × List Nat)) (hX : InclUpSim.UpCertSim A B S X) (hkeys : InclUpSim.KeysIn A X) (hok : NoBad A B X) :
+    Incl A B := InclUpSim.up_cert_sim_incl A B S hS hrefl htr hdis X hX hkeys hok
+
+example : InclUpSim.UpCertSim InclUpSimEx.exP InclUpSimEx.exQ (InclUpSim.LeqP InclUpSimEx.exR) [(2, [12]), (3, [11])] ∧
+    InclUpSim.KeysIn InclUpSimEx.exP [(2, [12]), (3, [11])] ∧ NoBad InclUpSimEx.exP InclUpSimEx.exQ [(2, [12]), (3, [11])] :=
+  upCertSimB_sound (by decide)
 
 /-! ### top-down encoding: downward recursive, with / without cache, with / without simulation -/
 
@@ -291,8 +324,10 @@ example : Dispatch.simConsistent ⟨"X", 26, "viaTopDown", "-", "-", "true", "gi
 * **No termination bound for the bottom-up upward exploration** `InclUpBdd.run`: every verdict is exact and `none` means
   "fuel exhausted" (`C07_bu_upward_exploration_certified`), but no fuel is proved to suffice (the explicit upward model
   of C01 has such a bound).
-* The bottom-up selection **upward with simulation** (`ANTICHAINS_UP_SIM`, implemented according to `C07_dispatch`) has no
-  model; soundness of upward pruning modulo a simulation is not proved.
+* The bottom-up selection **upward with simulation** (`ANTICHAINS_UP_SIM`): modelled by `inclUpBddSim`, which ignores the
+  relation because the C++ callee does (`C07_bu_upward_sim_exact`); that the parameter is unused is a reading of
+  `src/tree_incl_up.hh`, not a theorem.  The library entry point does not sanitise the operands for this selection
+  (`C07_dispatch`, item 4); `inclUpBdd` is exact on any operands but a verdict is only guaranteed on trimmed ones.
 * **The `SIM` selections of the top-down encoding outside their preconditions**: exactness is unconditional, a verdict
   is guaranteed only for a relation that passes the validation, disjoint operands and productive rule children
   (`C07_td_downward_models_exact`); the C++ passes the caller's relation through unchecked.  That the relation computed by
